@@ -28,7 +28,9 @@ S = Suite(
     "C08",
     what="run_bldfm_single on parse_config_dict configs: bearing tower -> footprint centroid vs "
          "wind_dir; utils.compute_wind_fields convention and speed",
-    bound="wind_dir every 45 deg (quick) / 15 deg (thorough) plus seeded off-lattice angles x "
+    bound="decomposition: every whole degree 0..360 as float / int / array plus sub-degree and "
+          "out-of-range angles; footprint: wind_dir every 45 deg (quick) / 15 deg (thorough), "
+          "the first degrees either side of north, plus seeded off-lattice angles x "
           "{neutral, L=-50, L=+100} x {MOST, MOSTM} x grids {64x64 square, 128x64 and 64x128 with "
           "square cells, 64x64 with 2:1 cells} x 3 reference positions (50N 11E, 33S 179.9E, "
           "0N 70W) x speeds 2.5/4/7 m/s x zm 2/3/4 m; nz = 8, 5 m cells, single precision; other "
@@ -105,9 +107,13 @@ def bearing(wind_dir, mol, closure, grid, ref, wind_speed, zm):
 
 
 @S.kind("wind-fields")
-def wind_fields(speed, wind_dir, as_array):
+def wind_fields(speed, wind_dir, as_array, as_int=False):
     import numpy as np
     from bldfm.utils import compute_wind_fields
+    if as_int:                      # degrees typed without a decimal point (YAML: `wind_dir: 5`)
+        if wind_dir != int(wind_dir):
+            raise AssertionError("generator: as_int needs a whole number of degrees")
+        wind_dir = int(wind_dir)
     if as_array:
         u, v = compute_wind_fields(speed, np.array([wind_dir, wind_dir]))
         u, v = float(u[0]), float(v[0])
@@ -144,7 +150,19 @@ def generate(tier, rng):
     for k in range(40 if q else 400):
         yield "wind-fields", dict(speed=rng.uniform(0.1, 30.0), wind_dir=rng.uniform(0.0, 360.0),
                                   as_array=bool(k % 2))
+    # the whole compass degree by degree, as float, int and array ("for every wind direction"):
+    # a convention that holds on a lattice of 15 or 45 degrees can still fail in between
+    for d in range(0, 361):
+        yield "wind-fields", dict(speed=(2.0, 5.5, 11.0)[d % 3], wind_dir=float(d),
+                                  as_array=bool(d % 2), as_int=bool(d % 4 < 2))
+    # ... and the first degrees east of north and west of north in finer steps
+    for wd in (0.25, 0.5, 1.5, 2.5, 3.14, 4.7, 6.0, 6.28, 6.3, 7.5, 57.3, 359.5, -0.5, -3.0, 363.0):
+        for arr in (False, True):
+            yield "wind-fields", dict(speed=3.0, wind_dir=wd, as_array=arr)
     # ---- footprint upwind of the tower
+    for wd in (5.0, 3.0, 1.0, 355.0) if q else (5.0, 3.0, 1.0, 355.0, 2.0, 6.0, 0.5, 359.0):
+        yield "bearing", dict(wind_dir=wd, mol=(1e9, -50.0)[int(wd) % 2], closure="MOST",
+                              grid="square", ref="jena", wind_speed=4.0, zm=3.0)
     step = 45 if q else 15
     grids = ("square", "wide") if q else ("square", "wide", "tall", "cells21")
     refs = list(REFS)
